@@ -122,8 +122,8 @@ class Oracle:
         self.mem = {}
         self.builds = 0
 
-    def clean(self, proj, target="app", define=False):
-        key = hashlib.sha1((projgen.proj_key(proj) + str(define)).encode()).hexdigest()
+    def clean(self, proj, target="app", define=False, prune=True):
+        key = hashlib.sha1((projgen.proj_key(proj) + str(define) + str(prune)).encode()).hexdigest()
         if key in self.mem:
             return self.mem[key]
         f = os.path.join(self.cache, key + ".json")
@@ -138,7 +138,7 @@ class Oracle:
         shutil.rmtree(d, ignore_errors=True)
         os.makedirs(d)
         try:
-            files, srcs = projgen.render_bobbuild(proj, define)
+            files, srcs = projgen.render_bobbuild(proj, define, prune)
             bobrun.write_files(d, files)
             for sub, fs in srcs.items():
                 bobrun.sync_tree(d, sub, fs)
@@ -146,7 +146,7 @@ class Oracle:
             self.builds += 1
             if r.rc != 0:
                 raise RuntimeError("clean build of oracle failed (rc=%s):\n%s" % (r.rc, r.out[-2000:]))
-            paths = bobrun.query_paths(d, target, False)
+            paths = bobrun.query_paths(d, target, False, ["-DV=%s" % proj["V"]] if define else [])
             res = {}
             for name, ps in paths.items():
                 pkg = name.split("/")[-1]
@@ -165,7 +165,7 @@ class Oracle:
 
 
 class BehaviourReplay:
-    def __init__(self, hist, workdir, oracle, release=False, jobs=1, enumerate_kills=False, seed=0, define=False):
+    def __init__(self, hist, workdir, oracle, release=False, jobs=1, enumerate_kills=False, seed=0, define=False, prune=True):
         self.hist = hist
         self.ws = os.path.join(workdir, "ws")
         self.ctl = os.path.join(workdir, "ctl")
@@ -177,6 +177,7 @@ class BehaviourReplay:
         self.jobs = jobs
         self.enumerate_kills = enumerate_kills
         self.define = define
+        self.prune = prune
         self.proj = None
         self.violations = []
         self.drift = []
@@ -193,9 +194,12 @@ class BehaviourReplay:
             c += ["-DV=%s" % self.proj["V"]]
         return c + list(extra)
 
+    def defines(self):
+        return ["-DV=%s" % self.proj["V"]] if self.define and self.proj is not None else []
+
     def apply(self, proj):
         self.proj = proj
-        files, srcs = projgen.render_bobbuild(proj, self.define)
+        files, srcs = projgen.render_bobbuild(proj, self.define, self.prune)
         bobrun.write_files(self.ws, files)
         for sub, fs in srcs.items():
             bobrun.sync_tree(self.ws, sub, fs)
@@ -206,6 +210,7 @@ class BehaviourReplay:
         detail["mode"] = "release" if self.release else "dev"
         detail["jobs"] = self.jobs
         detail["define"] = self.define
+        detail["prune"] = self.prune
         self.violations.append((sig, detail))
 
     def invoke(self, kill_at=None, ws=None):
@@ -218,8 +223,8 @@ class BehaviourReplay:
         if r.rc != 0:
             self.viol("invocation-failed:" + what, rc=r.rc, out=r.out[-3000:])
             return False
-        paths = bobrun.query_paths(self.ws, "app", self.release)
-        want = self.oracle.clean(proj, define=self.define)
+        paths = bobrun.query_paths(self.ws, "app", self.release, self.defines())
+        want = self.oracle.clean(proj, define=self.define, prune=self.prune)
         ok = True
         for name, ps in paths.items():
             pkg = name.split("/")[-1]
@@ -291,7 +296,7 @@ class BehaviourReplay:
                     shutil.rmtree(self.tmp, ignore_errors=True)
                     shutil.copytree(self.ws, self.tmp, symlinks=True)
                     dry = self.invoke(ws=self.tmp)
-                    paths = bobrun.query_paths(self.tmp, "app", self.release) if dry.rc == 0 else {}
+                    paths = bobrun.query_paths(self.tmp, "app", self.release, self.defines()) if dry.rc == 0 else {}
                     paths = {n.split("/")[-1]: v for n, v in paths.items()}
                     shutil.rmtree(self.tmp, ignore_errors=True)
                     if dry.rc != 0:
@@ -336,7 +341,7 @@ def shape_of(hist):
     s = []
     for a in hist:
         if a["a"] == "Edit":
-            s.append("E:%s%s" % (a["knob"], ":" + a["p"] if "p" in a else ""))
+            s.append("E:%s%s%s" % (a["knob"], ":" + a["p"] if "p" in a else "", "=%s" % a["v"] if "v" in a else ""))
         elif a["a"] == "Kill":
             s.append("K:%s:%s@%s" % (a["k"], a["p"], a["at"]))
         elif a["a"] == "Fail":
@@ -344,3 +349,16 @@ def shape_of(hist):
         elif a["a"] == "End":
             s.append("OK")
     return " ".join(s)
+
+
+def lib_never_deletes(hist):
+    """True if no invocation of the behaviour sees lib's import source lose a file (then the import SCM
+    may be used without `prune`: the documented caveat of non-pruning imports does not apply)"""
+    last = None
+    for a in hist:
+        if a["a"] == "Begin":
+            v = a["proj"]["src"]["lib"]
+            if last is not None and projgen.deletes_files(last, v):
+                return False
+            last = v
+    return True
